@@ -109,6 +109,27 @@ theorem constants :
     Gen.fs_ivData1 = [0x69, 0x47, 0x47, 0x72, 0xaf, 0x6f, 0xda, 0xb3, 0x42, 0x74, 0x3a, 0xef, 0xaa, 0x18, 0x62, 0x87] ∧
     Gen.fs_encryptionKeySize = 16 ∧ sectorSize = 2048 := by decide
 
+/-- The server keeps sector numbers as int32 and clamps table borders to 2^31−1 (`regionBorder`). -/
+def clampBorder (v : Nat) : Nat := min v (2 ^ 31 - 1)
+def clampGaps (gs : List Region) : List Region := gs.map (fun g => ⟨clampBorder g.start, clampBorder g.stop⟩)
+
+/-- Clamping is unobservable: for every sector a file can have (below 2^31−1, i.e. files under 4 TiB)
+    membership in the encrypted gaps is the same with clamped and with exact borders. -/
+theorem clamp_unobservable (gs : List Region) (s : Nat) (hs : s < 2 ^ 31 - 1) :
+    inGap (clampGaps gs) s = inGap gs s := by
+  induction gs with
+  | nil => rfl
+  | cons g rest ih =>
+    have ih' : (clampGaps rest).any (fun g => decide (g.start ≤ s) && decide (s < g.stop)) =
+        rest.any (fun g => decide (g.start ≤ s) && decide (s < g.stop)) := ih
+    simp only [inGap, clampGaps, List.map_cons, List.any_cons] at ih ⊢
+    have h1 : (decide (clampBorder g.start ≤ s) && decide (s < clampBorder g.stop)) =
+        (decide (g.start ≤ s) && decide (s < g.stop)) := by
+      unfold clampBorder
+      by_cases ha : g.start ≤ s <;> by_cases hb : s < g.stop <;> simp [ha, hb] <;> omega
+    rw [h1]
+    congr 1
+
 /-- non-vacuity: a valid three-region table and its two gaps -/
 example : validRegs [⟨0, 2⟩, ⟨5, 7⟩, ⟨7, 9⟩] = true ∧ gaps [⟨0, 2⟩, ⟨5, 7⟩, ⟨7, 9⟩] = [⟨2, 5⟩, ⟨7, 7⟩] ∧
     inGap (gaps [⟨0, 2⟩, ⟨5, 7⟩, ⟨7, 9⟩]) 4 = true ∧ inGap (gaps [⟨0, 2⟩, ⟨5, 7⟩, ⟨7, 9⟩]) 7 = false := by decide
